@@ -7,9 +7,12 @@ import (
 	"fmt"
 	"io"
 	"reflect"
+	"runtime"
+	"runtime/debug"
 	"sort"
 	"strings"
 	"sync"
+	"time"
 
 	"github.com/cenkalti/rpc2"
 	"github.com/ovn-org/libovsdb/database"
@@ -297,8 +300,44 @@ func (s *Sys) Transact(ops []ovsdb.Operation) (res []ovsdb.OperationResult, rpcE
 	return s.TransactRaw(args)
 }
 
-// TransactRaw sends raw JSON params.
+// ImplFailure is returned when the implementation panicked or did not return.
+type ImplFailure struct {
+	Panic string // panic value or "hang"
+	At    string // innermost libovsdb frame
+}
+
+func (f *ImplFailure) Error() string { return "implementation failure: " + f.Panic + " at " + f.At }
+
+// HangTimeout is the watchdog for one transaction (normal latency is < 1 ms).
+var HangTimeout = 20 * time.Second
+
+// TransactRaw sends raw JSON params. A panic or a hang of the implementation is
+// returned as *ImplFailure (the server is then unusable: it died holding its lock).
 func (s *Sys) TransactRaw(args []json.RawMessage) (res []ovsdb.OperationResult, rpcErr error) {
+	type out struct {
+		res []ovsdb.OperationResult
+		err error
+	}
+	ch := make(chan out, 1)
+	go func() {
+		var o out
+		defer func() {
+			if p := recover(); p != nil {
+				o = out{nil, &ImplFailure{fmt.Sprint(p), PanicSite(string(debug.Stack()))}}
+			}
+			ch <- o
+		}()
+		o.res, o.err = s.transactRaw(args)
+	}()
+	select {
+	case o := <-ch:
+		return o.res, o.err
+	case <-time.After(HangTimeout):
+		return nil, &ImplFailure{"transaction did not return within " + HangTimeout.String(), "hang:" + hangSite()}
+	}
+}
+
+func (s *Sys) transactRaw(args []json.RawMessage) (res []ovsdb.OperationResult, rpcErr error) {
 	var reply []*ovsdb.OperationResult
 	if err := s.Srv.Transact(nil, args, &reply); err != nil {
 		rpcErr = err
@@ -479,4 +518,87 @@ func (s *Sys) AddMonitor(method, id string, req map[string]*ovsdb.MonitorRequest
 		return nil, nil, nil, fmt.Errorf("bad method")
 	}
 	return rec, cl, out, err
+}
+
+// CanonResults renders a reply canonically (select rows converted and sorted; error details dropped).
+func (s *Sys) CanonResults(tables []string, res []ovsdb.OperationResult) string {
+	var out []string
+	for i, r := range res {
+		switch {
+		case r.Error != "":
+			out = append(out, "error:"+r.Error)
+		case r.Rows != nil:
+			var rows []string
+			var t *refmodel.Table
+			if i < len(tables) {
+				t = s.Ref.Tables[tables[i]]
+			}
+			for _, row := range r.Rows {
+				if t == nil {
+					rows = append(rows, fmt.Sprint(row))
+					continue
+				}
+				rr, err := FromOvsRow(t, row)
+				if err != nil {
+					rows = append(rows, "unconvertible:"+err.Error())
+					continue
+				}
+				rows = append(rows, rr.String())
+			}
+			sort.Strings(rows)
+			out = append(out, "rows:"+strings.Join(rows, ";"))
+		default:
+			out = append(out, fmt.Sprintf("count=%d uuid=%s", r.Count, r.UUID.GoUUID))
+		}
+	}
+	return strings.Join(out, " | ")
+}
+
+// OpTables lists the table of each abstract operation.
+func OpTables(ops []refmodel.Op) []string {
+	t := make([]string, len(ops))
+	for i, op := range ops {
+		t[i] = op.Table
+	}
+	return t
+}
+
+// PanicSite extracts the first libovsdb frame below the panic from a stack trace.
+func PanicSite(stack string) string {
+	lines := strings.Split(stack, "\n")
+	seenPanic := false
+	for _, l := range lines {
+		if strings.HasPrefix(l, "panic(") {
+			seenPanic = true
+			continue
+		}
+		if seenPanic && strings.HasPrefix(l, "github.com/ovn-org/libovsdb/") {
+			f := strings.TrimPrefix(l, "github.com/ovn-org/libovsdb/")
+			if i := strings.LastIndex(f, "("); i > 0 {
+				f = f[:i]
+			}
+			return f
+		}
+	}
+	return "unknown"
+}
+
+func hangSite() string {
+	buf := make([]byte, 1<<20)
+	n := runtime.Stack(buf, true)
+	for _, g := range strings.Split(string(buf[:n]), "\n\n") {
+		if !strings.Contains(g, "server.(*OvsdbServer).Transact") {
+			continue
+		}
+		for _, l := range strings.Split(g, "\n") {
+			if strings.HasPrefix(l, "github.com/ovn-org/libovsdb/") {
+				f := strings.TrimPrefix(l, "github.com/ovn-org/libovsdb/")
+				if i := strings.LastIndex(f, "("); i > 0 {
+					f = f[:i]
+				}
+				return f
+			}
+		}
+	}
+	return "unknown"
 }
